@@ -274,11 +274,38 @@ Section Sound.
     - f_equal. eapply IH; eauto.
   Qed.
 
+  (** the part of [RegistryOf] that holds of EVERY registry scale-info derives (the injectivity of
+      the [canon] labels does not: Model/Program.v [labels_injectiveb]); [registry_entries_ofb],
+      evaluated on every generated case as [corr_registry_of], is sound for it *)
+  Definition RegistryEntriesOf : Prop :=
+    (forall id c, L id = Some c -> exists t, resolve r id = Some t /\ entry_of defs L r c t) /\
+    (forall id t, resolve r id = Some t -> L id = None -> exists lsb, order_marker lsb t).
+
+  Theorem registry_entries_ofb_sound :
+    registry_entries_ofb defs labels r = true -> prelude_nodocs_b r = true -> RegistryEntriesOf.
+  Proof.
+    unfold registry_entries_ofb. intros H Hnd. apply andb_prop in H as [H1 H2].
+    apply Nat.eqb_eq in H1. apply forall2b_Forall2 in H2.
+    unfold prelude_nodocs_b in Hnd. rewrite forallb_forall in Hnd.
+    split.
+    - intros id c Hl. unfold L, label_at in Hl.
+      destruct (nth_error labels (N.to_nat id)) as [o|] eqn:El; [|discriminate]. subst o.
+      destruct (Forall2_nth _ _ _ _ _ H2 El) as ([i t] & Hr & He). cbn [snd] in He.
+      exists t. split; [unfold resolve; rewrite Hr; reflexivity|].
+      apply entry_ofb_sound; [|exact He]. apply (Hnd (i, t)). eapply nth_error_In; eauto.
+    - intros id t Hr Hl. unfold resolve in Hr.
+      destruct (nth_error r (N.to_nat id)) as [[i t']|] eqn:Er; [|discriminate]. inversion Hr; subst t'.
+      destruct (Forall2_nth_r _ _ _ _ _ H2 Er) as (o & Ho & He). cbn [snd] in He.
+      unfold L, label_at in Hl. rewrite Ho in Hl. subst o.
+      apply orb_prop in He as [He|He]; [exists true|exists false]; apply order_markerb_sound; exact He.
+  Qed.
+
   (** soundness of the checker evaluated on every generated / compiled program *)
   Theorem registry_ofb_sound :
     registry_ofb defs labels r = true -> prelude_nodocs_b r = true -> RegistryOf defs L r.
   Proof.
-    unfold registry_ofb. intros H Hnd. apply andb_prop in H as [H H3]. apply andb_prop in H as [H1 H2].
+    unfold registry_ofb, registry_entries_ofb, labels_injectiveb. intros H Hnd.
+    apply andb_prop in H as [H H3]. apply andb_prop in H as [H1 H2].
     apply Nat.eqb_eq in H1. apply forall2b_Forall2 in H2.
     unfold prelude_nodocs_b in Hnd. rewrite forallb_forall in Hnd.
     split; [|split].
